@@ -196,6 +196,21 @@ func (r *reference) eval(cfg *Config, opts *options) (string, error) {
 	return v.toString(opts)
 }
 
+// scoped runs fn with its own set of active reference names, inheriting the enclosing
+// ones. Names registered while one piece of an expression is evaluated must not look like
+// a cycle to the next piece (a variable may be used more than once); a genuine cycle is
+// still found through the inherited sets.
+func scoped(opts *options, fn func() (string, error)) (string, error) {
+	saved := opts.activeFields
+	opts.activeFields = newFieldSet(saved)
+	defer func() { opts.activeFields = saved }()
+	return fn()
+}
+
+func evalScoped(e varEvaler, cfg *Config, opts *options) (string, error) {
+	return scoped(opts, func() (string, error) { return e.eval(cfg, opts) })
+}
+
 func (s constExp) eval(*Config, *options) (string, error) {
 	return string(s), nil
 }
@@ -207,7 +222,7 @@ func (s *splice) String() string {
 func (s *splice) eval(cfg *Config, opts *options) (string, error) {
 	buf := bytes.NewBuffer(nil)
 	for _, p := range s.pieces {
-		s, err := p.eval(cfg, opts)
+		s, err := evalScoped(p, cfg, opts)
 		if err != nil {
 			return "", err
 		}
@@ -225,54 +240,59 @@ func (e *expansionSingle) String() string {
 }
 
 func (e *expansionSingle) eval(cfg *Config, opts *options) (string, error) {
-	path, err := e.evaler.eval(cfg, opts)
+	path, err := evalScoped(e.evaler, cfg, opts)
 	if err != nil {
 		return "", err
 	}
 
 	ref := newReference(parsePathWithOpts(path, opts))
-	return ref.eval(cfg, opts)
+	return evalScoped(ref, cfg, opts)
 }
 
 func (e *expansionDefault) eval(cfg *Config, opts *options) (string, error) {
-	path, err := e.left.eval(cfg, opts)
+	path, err := evalScoped(e.left, cfg, opts)
 	if err != nil || path == "" {
-		return e.right.eval(cfg, opts)
+		return evalScoped(e.right, cfg, opts)
 	}
 	ref := newReference(parsePath(path, e.pathSep, opts.maxIdx, opts.enableNumKeys, opts.escapePath))
-	v, err := ref.eval(cfg, opts)
+	v, err := evalScoped(ref, cfg, opts)
 	if err != nil || v == "" {
-		return e.right.eval(cfg, opts)
+		return evalScoped(e.right, cfg, opts)
 	}
 	return v, err
 }
 
 func (e *expansionAlt) eval(cfg *Config, opts *options) (string, error) {
-	path, err := e.left.eval(cfg, opts)
+	path, err := evalScoped(e.left, cfg, opts)
 	if err != nil || path == "" {
 		return "", nil
 	}
 
 	ref := newReference(parsePath(path, e.pathSep, opts.maxIdx, opts.enableNumKeys, opts.escapePath))
-	tmp, err := ref.resolve(cfg, opts)
+	var tmp value
+	_, err = scoped(opts, func() (string, error) {
+		var err error
+		tmp, err = ref.resolve(cfg, opts)
+		return "", err
+	})
 	if err != nil || tmp == nil {
 		return "", nil
 	}
 
-	return e.right.eval(cfg, opts)
+	return evalScoped(e.right, cfg, opts)
 }
 
 func (e *expansionErr) eval(cfg *Config, opts *options) (string, error) {
-	path, err := e.left.eval(cfg, opts)
+	path, err := evalScoped(e.left, cfg, opts)
 	if err == nil && path != "" {
 		ref := newReference(parsePath(path, e.pathSep, opts.maxIdx, opts.enableNumKeys, opts.escapePath))
-		str, err := ref.eval(cfg, opts)
+		str, err := evalScoped(ref, cfg, opts)
 		if err == nil && str != "" {
 			return str, nil
 		}
 	}
 
-	errStr, err := e.right.eval(cfg, opts)
+	errStr, err := evalScoped(e.right, cfg, opts)
 	if err != nil {
 		return "", err
 	}
